@@ -219,6 +219,10 @@ mutual
           | .source => pure (some src)
           | .sourceParent => (match fr.parent with | some pv => pure (some pv) | none => stuckE "no parent pointer"))
         match callee with
+        | .structMethod name =>
+          -- a method of the source value: uninterpreted, fails when the harness says so for this receiver
+          if retErr && p.sem.failsOn name src then errE (wrapErr w fr.idx fr.keys (.boom name))
+          else pure (.tok name (src :: argVals))
         | .custom i =>
           match p.conv.customs[i]? with
           | none => stuckE "bad custom index"
@@ -375,6 +379,58 @@ mutual
             | .err e => .err e
             | .panic k => .panic k
             | .stuck w => .stuck w
+
+      | .viaMethod target path derefs guarded call resIsPtr cv zero =>
+        fun n =>
+        match walk path (derefs.take path.length) src with
+        | .stuck w => .stuck w
+        | .err e => .err e
+        | .panic k => .panic k
+        | .ok recv0? =>
+          -- the receiver itself may be a pointer (guarded, dereferenced by the call)
+          let recv? : Outcome (Option Val) :=
+            match recv0? with
+            | none => .ok none
+            | some rv =>
+              if derefs.getLast?.getD false then
+                match rv with
+                | .nil => .ok none
+                | .ptr _ x => .ok (some x)
+                | _ => .stuck "viaMethod: pointer receiver expected"
+              else .ok (some rv)
+          match recv? with
+          | .stuck w => .stuck w
+          | .err e => .err e
+          | .panic k => .panic k
+          | .ok none =>
+            -- a guard failed: the temporary pointer stays nil
+            let oldF := if old.isAbsent then Val.absent else (fieldOf old target).getD .nil
+            if zero == .check then evalFields p fuel fr rest src old n
+            else
+              match evalConv p fuel { fr with parent := none } cv .nil oldF n with
+              | .ok (nv, n') =>
+                if old.isAbsent && nv.isAbsent then evalFields p fuel fr rest src old n'
+                else evalFields p fuel fr rest src (setField old target nv) n'
+              | .err e => .err e
+              | .panic k => .panic k
+              | .stuck w => .stuck w
+          | .ok (some recv) =>
+            match evalConv p fuel { fr with parent := none } call recv .nil n with
+            | .err e => .err e
+            | .panic k => .panic k
+            | .stuck w => .stuck w
+            | .ok (r, n1) =>
+              let argv : Val × Nat := if guarded && !resIsPtr then (.ptr (.fresh n1) r, n1 + 1) else (r, n1)
+              let oldF := if old.isAbsent then Val.absent else (fieldOf old target).getD .nil
+              if zero == .check && isZeroVal argv.1 then evalFields p fuel fr rest src old argv.2
+              else
+                match evalConv p fuel { fr with parent := none } cv argv.1 oldF argv.2 with
+                | .ok (nv, n') =>
+                  if old.isAbsent && nv.isAbsent then evalFields p fuel fr rest src old n'
+                  else evalFields p fuel fr rest src (setField old target nv) n'
+                | .err e => .err e
+                | .panic k => .panic k
+                | .stuck w => .stuck w
 
   /-- call generated/declared method `m` on a source value with the given context values -/
   def callMethod (p : Program) : Nat → Nat → Val → List Val → Nat → Outcome (Val × Nat)
